@@ -100,6 +100,20 @@ var expectedRefactorAlarms = map[string]string{
 	"U07-5": "identifier space looked up in a map",
 	// a mock rebuilt from closures over the constructor's locals into a struct with methods (counter, expectation list and testing.TB become fields)
 	"W10-3": "NewPublishMock as a struct with methods",
+	// round X, reorganisations of 30–100 lines (DESIGN §7): 30 of 50 are silent; what still alarms, by kind —
+	// a loop, guard chain or size computation of an anchor function moved into sequential step functions whose results feed each other
+	"X04-3": "peekPacket in four steps", "X05-2": "handshake in three steps", "X06-1": "onPUBLISH in three steps", "X09-1": "tail of AdoptSession in four methods",
+	// near-duplicates unified behind a parameterised or generic helper that takes what used to be a constant, a field or a format
+	"X03-1": "four write functions through a generic submitLocked", "X03-2": "writeTo/writeBuffersTo through closures", "X06-3": "identifier checks of three handlers in one helper", "X07-1": "subscribe/unsubscribe round trip in one helper",
+	"X08-1": "four persisted publishes through one helper taking *outbound", "X09-2": "sorts, counter installs and placeholder loops behind helpers", "X01-2": "Max clamps through a pointer parameter", "X02-1": "termCallbacks goroutines as one method started twice",
+	// a dispatch over the two connection signals as a table reached through a type assertion
+	"X03-4": "lockWrite signals through a table of method expressions",
+	// fields moved into a struct together with renames, or scan results of a function moved into a struct local
+	"X07-4": "pingAck and unorderedTxs embedded in a new struct", "X07-5": "unorderedTxs moved to a file with type and field renamed", "X09-5": "five scan-result locals as fields of one local struct",
+	// test doubles rebuilt around shared helper types
+	"X10-4": "counters of the mocks as one callSequence type", "X10-5": "exchange stub as a struct with methods",
+	// an error helper that formats through a verb the class analysis does not follow into a guard clause
+	"X05-5": "handshake errors through formatting helpers",
 	// a known function changes its signature (parameters bundled in a new struct)
 	"U07-4": "cleanSequence takes a struct",
 }
@@ -170,6 +184,10 @@ func runCase(c stCase, repo, verif, self string) stResult {
 				hit = true
 			}
 		}
+	}
+	// an analyser that gives up is an alarm as well, not silence
+	if strings.Contains(string(out), "analyser-panic") || (strings.Contains(string(out), "VIOLATION property=") && len(res.Fired) == 0) {
+		res.Fired = append(res.Fired, "ANALYSER PANIC or alarm without a construct")
 	}
 	if c.Silent {
 		if len(res.Fired) == 0 {
